@@ -57,6 +57,10 @@ impl<I: ConnectSyscall> ConnectSyscall for NioConnectSyscall<I> {
             // an interrupted connect goes on asynchronously, exactly like EINPROGRESS
             // (connect is not called again in this loop, so EINTR must not just retry)
             if errno == Some(libc::EINPROGRESS) || errno == Some(libc::EALREADY) || errno == Some(libc::EWOULDBLOCK) || errno == Some(libc::EINTR) {
+                if !blocking {
+                    // the caller asked for non-blocking semantics: report EINPROGRESS
+                    break;
+                }
                 //阻塞，直到写事件发生
                 left_time = start_time
                     .saturating_add(send_time_limit(fd))
